@@ -236,7 +236,7 @@ func c04Exec(dir string, p *c04Payload, dry bool) *c04Outcome {
 	ex := Simulate(p.Sched, plan, c04MaxTicks, func() error {
 		var err error
 		opts.FinalPasses = w.FinalPasses
-		obs, err = RunPipeline(cfg, w.Params, opts)
+		obs, err = RunPipeline(cfg, w.ExtraParams(), opts)
 		return err
 	})
 	out := &c04Outcome{Keys: panicsOf(ex, obs), Ex: ex, Fired: plan.Fired, Calls: plan.Calls}
@@ -532,6 +532,95 @@ func c04Minimise(dir string, p *c04Payload, key string, budget int) *c04Payload 
 	return &best
 }
 
+// c04Scenario: configurations that are legal YAML and plausible mistakes, each aiming
+// at a kind assumption of the code that reads it (a struct where the user put an alias
+// or a scalar, a second application of a rule to what the first one produced).
+func c04Scenario(r *Rand) *Workload {
+	w := &Workload{Files: map[string]string{}, Types: true, Builders: true}
+	str := func() *WType { return &WType{K: "string"} }
+	thing := &WPackage{Name: "scn", Objects: []WObject{
+		{Name: "Thing", T: &WType{K: "struct", Fields: []WField{
+			{Name: "title", T: str(), Required: true},
+			{Name: "enabled", T: &WType{K: "bool", Default: true}},
+			{Name: "labels", T: &WType{K: "array", Elem: str()}},
+			{Name: "inner", T: &WType{K: "ref", Ref: "Inner"}},
+		}}},
+		{Name: "Inner", T: &WType{K: "struct", Fields: []WField{{Name: "x", T: &WType{K: "int"}}}}},
+		{Name: "ThingAlias", T: &WType{K: "ref", Ref: "Thing"}},
+	}}
+	kind := Pick(r, []string{"envelope-on-scalar", "envelope-on-array", "unfold-twice", "compose-on-alias", "dataquery-not-a-struct", "dataquery-alias",
+		"template-loop:include", "template-loop:includeIfExists", "template-loop:template"})
+	switch kind {
+	case "template-loop:include", "template-loop:includeIfExists", "template-loop:template":
+		// a user template that reaches itself: every way of calling a template has to end in an error
+		w.Files["in/scn/schema.json"] = thing.RenderJSONSchema()
+		w.Inputs = []InputSpec{{Kind: "jsonschema", Path: "in/scn/schema.json", Package: "scn"}}
+		call := "{{ " + strings.TrimPrefix(kind, "template-loop:") + " \"verif_loop\" . }}"
+		body := "{{ define \"verif_loop\" }}x" + call + "{{ end }}"
+		w.Languages = nil
+		for _, l := range Shuffled(r, []string{"go", "python", "typescript", "java", "php"})[:1+r.Intn(2)] {
+			ls := LangSpec{Name: l, Flags: map[string]string{}}
+			if r.Bool() {
+				dir := "tpl/extra_" + l
+				w.Files[dir+"/LOOP.md"] = body + "\nloop: " + call + "\n"
+				ls.Flags["extra_files_templates"] = "[" + yq("%__config_dir%/"+dir) + "]"
+			} else {
+				dir := "tpl/overrides_" + l
+				w.Files[dir+"/loop.tmpl"] = body + "\n"
+				w.Files["tpl/extra_"+l+"/USES.md"] = "uses: " + call + "\n"
+				ls.Flags["overrides_templates"] = "[" + yq("%__config_dir%/"+dir) + "]"
+				ls.Flags["extra_files_templates"] = "[" + yq("%__config_dir%/tpl/extra_"+l) + "]"
+			}
+			w.Languages = append(w.Languages, ls)
+		}
+	case "envelope-on-scalar", "envelope-on-array", "unfold-twice":
+		w.Files["in/scn/schema.json"] = thing.RenderJSONSchema()
+		w.Inputs = []InputSpec{{Kind: "jsonschema", Path: "in/scn/schema.json", Package: "scn"}}
+		y := "language: all\npackage: scn\noptions:\n"
+		switch kind {
+		case "envelope-on-scalar":
+			y += "  - add_assignment:\n      by_name: Thing.title\n      assignment:\n        path: title\n        method: direct\n        value:\n          envelope:\n            values:\n              - field: x\n                value: {constant: 1}\n"
+		case "envelope-on-array":
+			y += "  - add_assignment:\n      by_name: Thing.labels\n      assignment:\n        path: labels\n        method: append\n        value:\n          envelope:\n            values:\n              - field: x\n                value: {constant: 1}\n"
+		default:
+			y += "  - unfold_boolean:\n      by_name: Thing.enabled\n      true_as: on\n      false_as: off\n  - unfold_boolean:\n      by_name: Thing.on\n      true_as: reallyOn\n      false_as: reallyOff\n"
+		}
+		w.Files["cfg/veneers/scn.yaml"] = y
+		w.VeneerDirs = []string{"cfg/veneers"}
+	case "compose-on-alias":
+		cw := GenComposeWorkload(r)
+		var doc map[string]any
+		if json.Unmarshal([]byte(cw.Files["in/gen_dashboard/schema.json"]), &doc) == nil {
+			if defs, ok := doc["definitions"].(map[string]any); ok {
+				defs["PanelAlias"] = map[string]any{"$ref": "#/definitions/Panel"}
+			}
+			b, _ := json.MarshalIndent(doc, "", " ")
+			cw.Files["in/gen_dashboard/schema.json"] = string(b)
+		}
+		cw.Files["cfg/veneers/compose.yaml"] = strings.Replace(cw.Files["cfg/veneers/compose.yaml"], "source_builder_name: dashboard.Panel", "source_builder_name: dashboard.PanelAlias", 1)
+		w = cw
+	default:
+		common := &WPackage{Name: "common", Objects: []WObject{{Name: "DataQuery", T: str()}, {Name: "Other", T: &WType{K: "struct", Fields: []WField{{Name: "a", T: str()}}}}}}
+		if kind == "dataquery-alias" {
+			common.Objects[0].T = &WType{K: "ref", Ref: "Other"}
+		}
+		query := &WPackage{Name: "myquery", Objects: []WObject{{Name: "Query", T: &WType{K: "struct", Fields: []WField{{Name: "expr", T: str()}, {Name: "refId", T: str()}}}}}}
+		w.Files["in/common/schema.json"] = common.RenderJSONSchema()
+		w.Files["in/myquery/schema.json"] = query.RenderJSONSchema()
+		w.Inputs = []InputSpec{
+			{Kind: "jsonschema", Path: "in/common/schema.json", Package: "common"},
+			{Kind: "jsonschema", Path: "in/myquery/schema.json", Package: "myquery", Metadata: map[string]string{"kind": "composable", "variant": "dataquery", "identifier": "myquery"}},
+		}
+		w.Files["cfg/common_passes.yaml"] = "passes:\n  - dataquery_identification: {}\n"
+		w.CommonPass = []string{"cfg/common_passes.yaml"}
+	}
+	if len(w.Languages) == 0 {
+		w.Languages = GenLanguages(r, 1, 3)
+	}
+	w.Name = "scenario:" + kind + " -> " + strings.Join(w.LangNames(), ",")
+	return w
+}
+
 var inputConditions = []string{
 	"true", "1 < 2", "false", `sprintf("%s-%d", "a", 1) == "a-1"`, `semver("1.2.3").Major >= 1`, `semver("v10.0.0-pre").GT(semver("9.5.1"))`,
 	"'yes'", "1", "nil", `sprintf("%d", 3)`, `semver("not a version")`, `semver("1.0.0")`,
@@ -633,6 +722,9 @@ func init() {
 					}
 					w.TplData["Cyclic"] = Pick(r, []string{"%self%", "%ping%", "%same%"})
 					w.OutputDir = "out/%l/" + Pick(r, []string{"%self%", "%pong%", "x"})
+				}
+				if sr := r.Side("scenario"); sr.Chance(1, 25) {
+					w = c04Scenario(sr)
 				}
 				if sr := r.Side("input-condition"); sr.Chance(1, 6) && len(w.Inputs) > 0 {
 					// `if:` conditions: boolean, skipping, statically and dynamically non-boolean,
